@@ -4,3 +4,10 @@ from .kernels import run_c03
 
 def run(ctx):
     run_c03(ctx)
+    # "every accepted graph's table" is the table of THIS graph built with THIS D: nothing outside the arguments may enter (a cache of
+    # tables keyed without D hands a D=3 table to a D=4 sampler), and what build_sampler stores is the builder's table itself
+    # (restated from C17-c / C17-d and C05-b)
+    from .restate import run_restated
+    run_restated(ctx, [("C17", {"C17-c": "no static mut / thread_local / non-Freeze static in the crate",
+                                "C17-d": "no ambient-state callee reachable from build_sampler and the sampling entries"}),
+                       ("C05", {"C05-b": "build_sampler: the Ok table is moved unmodified into the sampler, with the const parameter D as dimension"})])
